@@ -19,6 +19,7 @@ Each model states what the *library* does, nothing about quantem:
 
   np.mean(a, axis=k): arithmetic mean along an axis; np.median / min / max / quantile / mean(a): some real number
   np.fft.fft2(a): an OPAQUE array (contents outside the model; arithmetic on it stays opaque)
+  a[mask] (boolean mask of a's shape): 1-D, length = number of True entries (== a.size iff all True), values unspecified
   a[i] = v / a[i, :] = v: functional update of one leading slab, the right-hand side read in the pre-write state;
         per-slab ghost totals are remembered for concrete i
 
@@ -570,6 +571,51 @@ def install(reg):
         return r
 
     reg.setitem_models[SymArr] = arr_setitem_chain
+
+    # ---- a[mask] with a boolean mask of a's shape: the selected entries in row-major order.  Trusted: the result is 1-D, its
+    # length is the number of True entries (one length per mask object, so a[m], b[m] have equal lengths), 0 <= length <= a.size,
+    # and length == a.size exactly when every entry of the mask is True; the selected VALUES are left unspecified (fresh).
+    def _is_mask(k, base):
+        if not (isinstance(k, SymArr) and k.ndim == base.ndim and k.ndim >= 1):
+            return False
+        try:
+            probe = lift(k.fn(*[z3.Int(f"i!mk{d}") for d in range(k.ndim)]))
+        except Exception:
+            return False
+        return z3.is_bool(probe) and all(V.dims_equal(p, q) for p, q in zip(k.shape, base.shape))
+
+    def arr_getitem(interp, base, key):
+        if isinstance(key, tuple) and len(key) == 1:
+            key = key[0]
+        if not _is_mask(key, base):
+            return NotImplemented
+        ctx = interp.ctx
+        cnt = getattr(key, "_true_count", None)
+        if cnt is None or cnt[1] != key.writes:
+            n = ctx.fresh("mask_count", "int")
+            size = 1
+            for d in base.shape:
+                size = size * d
+            idx = [z3.Int(f"i!mq{d}") for d in range(key.ndim)]
+            rng = z3.And(*[z3.And(i >= 0, i < lift(d)) for i, d in zip(idx, key.shape)])
+            alltrue = z3.ForAll(idx, z3.Implies(rng, lift(key.fn(*idx))))
+            ctx.assume(z3.And(n.t >= 0, n.t <= lift(size)))
+            ctx.assume((n.t == lift(size)) == alltrue)
+            key._true_count = (n, key.writes)
+            cnt = key._true_count
+        r = ctx.fresh_arr("masked", (cnt[0],), base.kind if base.kind in ("int", "real", "bool") else "real")
+        r._masked_from = (base, key)
+        return r
+
+    prev_get = reg.getitem_models.get(SymArr)
+
+    def arr_getitem_chain(interp, base, key):
+        r = arr_getitem(interp, base, key)
+        if r is NotImplemented and prev_get is not None:
+            return prev_get(interp, base, key)
+        return r
+
+    reg.getitem_models[SymArr] = arr_getitem_chain
 
     # ---- a + b keeps totals (linearity of the sum) when no broadcasting is involved
     def arr_add(interp, op, a, b):
